@@ -1196,4 +1196,148 @@ def wIdentityReq : Req :=
     ("Connection".toList, "keep-alive".toList), ("Content-Type".toList, "text/plain".toList),
     ("Content-Length".toList, "10".toList)], []⟩
 
+/-! ### sanitization: redaction-tolerant judgement -/
+
+theorem valueRedacted_refl (ms : List Str) (v : Str) : valueRedacted ms v v = true := by simp [valueRedacted]
+
+theorem queryPairsRedacted_refl (ms : List Str) (l : List (Str × Str)) : queryPairsRedacted ms l l = true := by
+  induction l with
+  | nil => rfl
+  | cons kv rest ih => obtain ⟨k, v⟩ := kv; simp [queryPairsRedacted, queryValueRedacted, ih]
+
+theorem urlRedacted_refl (ms : List Str) (u : Str) : urlRedacted ms u u = true := by
+  unfold urlRedacted
+  cases h : urlQuery u with
+  | none => simp [queryRedacted]
+  | some q => simp [queryRedacted, queryPairsRedacted_refl]
+
+theorem headersOk_redacted (ms : List Str) (auto : Table) (orig sent : List (Str × Str))
+    (h : headersOk auto orig sent = true) : headersOkRedacted ms auto orig sent = true := by
+  simp only [headersOk, headersOkRedacted, Bool.and_eq_true, List.all_eq_true, Bool.or_eq_true, List.any_eq_true,
+    List.contains_eq_mem, decide_eq_true_eq] at h ⊢
+  refine ⟨fun kv hkv => ⟨kv, h.1 kv hkv, by simp [fieldRedacted, valueRedacted_refl]⟩, fun o ho => ?_⟩
+  rcases h.2 o ho with ha | hs
+  · exact Or.inl ha
+  · exact Or.inr ⟨o, hs, by simp [fieldRedacted, valueRedacted_refl]⟩
+
+theorem reproduces_redacted_of_reproduces (ms : List Str) (auto : Table) (o : Original) (cmd : Str)
+    (h : reproduces auto o cmd = true) : reproducesRedacted ms auto o cmd = true := by
+  unfold reproduces at h
+  unfold reproducesRedacted
+  cases hp : shParse cmd with
+  | none => simp [hp] at h
+  | some argv =>
+    simp only [hp] at h ⊢
+    cases hc : curlSem argv with
+    | request m u hs b k =>
+      simp only [hc, sameRequest, Bool.and_eq_true, beq_iff_eq] at h
+      obtain ⟨⟨⟨⟨h1, h2⟩, h3⟩, h4⟩, h5⟩ := h
+      simp [sameRequestRedacted, h1, h2, h3, h4, urlRedacted_refl, headersOk_redacted ms auto _ _ h5]
+    | readsFile => simp [hc, sameRequest] at h
+    | globbed => simp [hc, sameRequest] at h
+    | unsupported => simp [hc, sameRequest] at h
+
+/-- what acceptance means -/
+theorem redacted_accepts_only (ms : List Str) (auto : Table) (o : Original) (cmd : Str) (argv : List Str)
+    (m u : Str) (hs : List (Str × Str)) (b : Option Str) (k : Bool)
+    (hp : shParse cmd = some argv) (hc : curlSem argv = .request m u hs b k)
+    (h : reproducesRedacted ms auto o cmd = true) :
+    m = o.method ∧ bodyOf b = bodyOf o.body ∧ k = !o.verify ∧ urlBase u = urlBase o.url
+      ∧ ∀ kv ∈ hs, ∃ ov ∈ o.headers, ov.1 = kv.1 ∧ (ov.2 = kv.2 ∨ kv.2 ∈ ms) := by
+  simp only [reproducesRedacted, hp, hc, sameRequestRedacted, Bool.and_eq_true, beq_iff_eq, urlRedacted,
+    headersOkRedacted, List.all_eq_true, List.any_eq_true] at h
+  obtain ⟨⟨⟨⟨h1, ⟨h2, _⟩, _⟩, h3⟩, h4⟩, h5, _⟩ := h
+  refine ⟨h1, h3, h4, h2.symm, fun kv hkv => ?_⟩
+  obtain ⟨ov, hov, hf⟩ := h5 kv hkv
+  simp only [fieldRedacted, valueRedacted, Bool.and_eq_true, beq_iff_eq, Bool.or_eq_true, List.contains_eq_mem,
+    decide_eq_true_eq] at hf
+  exact ⟨ov, hov, hf.1, hf.2⟩
+
+
+theorem sanitizeFlat_mem (cfg : SanConfig) (hs : List (Str × Str)) (kv' : Str × Str) (h : kv' ∈ sanitizeFlat cfg hs) :
+    ∃ kv ∈ hs, kv' = (if sensitive cfg kv.1 then (kv.1, cfg.replacement) else kv) := by
+  simp only [sanitizeFlat, List.mem_map] at h
+  obtain ⟨kv, hkv, rfl⟩ := h
+  exact ⟨kv, hkv, rfl⟩
+
+theorem fieldRedacted_san (cfg : SanConfig) (ms : List Str) (hm : cfg.replacement ∈ ms) (kv : Str × Str) :
+    fieldRedacted ms kv (if sensitive cfg kv.1 then (kv.1, cfg.replacement) else kv) = true := by
+  by_cases hs : sensitive cfg kv.1 = true
+  · simp [fieldRedacted, valueRedacted, hs, hm]
+  · simp [fieldRedacted, valueRedacted, hs]
+
+/-- the command printed for a request whose header values were redacted by key (and whose URL is a redaction of the
+    original's) sends the original request up to the redacted values -/
+theorem sanitized_reproduces_redacted (cfg : SanConfig) (ms : List Str) (hm : cfg.replacement ∈ ms) (tbl auto : Table)
+    (r : Req) (url' : Str)
+    (hwf : wf ⟨r.method, url', r.body, r.verify, sanitizeFlat cfg r.headers, r.known⟩ = true)
+    (hurl : urlRedacted ms r.url url' = true)
+    (hsub : ∀ k v, isAutoValued tbl k v = true → isAuto auto (k, v) = true)
+    (hrep : ∀ e ∈ tbl, e.2 ≠ some cfg.replacement) :
+    reproducesRedacted ms auto (original r)
+      (generate ⟨.repaired, .repaired, .repaired⟩ tbl ⟨r.method, url', r.body, r.verify, sanitizeFlat cfg r.headers, r.known⟩) = true := by
+  have hm' : methodOk r.method = true := by
+    simp only [wf, Bool.and_eq_true] at hwf
+    exact hwf.1.1.1
+  have hall : ∀ kv ∈ sanitizeFlat cfg r.headers, nameOk kv.1 = true ∧ valueOk kv.2 = true := by
+    simp only [wf, Bool.and_eq_true, List.all_eq_true] at hwf
+    exact hwf.2
+  have hkept : ∀ kv ∈ filterHeaders .repaired tbl r.known (sanitizeFlat cfg r.headers), nameOk kv.1 = true ∧ valueOk kv.2 = true :=
+    fun kv hkv => hall kv (List.mem_filter.1 hkv).1
+  have hs := sent_eq .repaired _ hkept
+  simp only at hs
+  unfold reproducesRedacted
+  rw [generate_eq_render _ tbl ⟨r.method, url', r.body, r.verify, sanitizeFlat cfg r.headers, r.known⟩ hm',
+    shParse_render _ (argvOf_noNul _ tbl _ hwf)]
+  simp only [curlSem_argvOf _ tbl _ hwf, hs]
+  have hc : ¬ ((Variant.repaired = Variant.asFound) ∧ bodyStartsAt (bodyOf r.body) = true) := by simp
+  simp only [hc, if_false, sameRequestRedacted, original, bodyOf_idem, beq_self_eq_true, Bool.true_and, hurl,
+    Bool.and_eq_true, headersOkRedacted, List.all_eq_true, List.any_eq_true, Bool.or_eq_true]
+  refine ⟨?_, ?_⟩
+  · intro kv' hkv'
+    obtain ⟨kv, hkv, rfl⟩ := sanitizeFlat_mem cfg r.headers kv' (List.mem_filter.1 hkv').1
+    exact ⟨kv, hkv, fieldRedacted_san cfg ms hm kv⟩
+  · intro o ho
+    have hmem : (if sensitive cfg o.1 then (o.1, cfg.replacement) else o) ∈ sanitizeFlat cfg r.headers := by
+      simp only [sanitizeFlat, List.mem_map]
+      exact ⟨o, ho, rfl⟩
+    by_cases hk : (if sensitive cfg o.1 then (o.1, cfg.replacement) else o)
+        ∈ filterHeaders .repaired tbl r.known (sanitizeFlat cfg r.headers)
+    · exact Or.inr ⟨_, hk, fieldRedacted_san cfg ms hm o⟩
+    · left
+      simp only [filterHeaders, List.mem_filter, hmem, true_and, Bool.or_eq_true, Bool.not_eq_true', not_or,
+        Bool.not_eq_false] at hk
+      obtain ⟨_, hauto⟩ := hk
+      by_cases hsn : sensitive cfg o.1 = true
+      · simp only [hsn, if_true] at hauto
+        obtain ⟨e, he, hname, hval⟩ := (isAutoValued_iff tbl o.1 cfg.replacement).1 hauto
+        rcases hval with hval | hval
+        · exact hsub o.1 o.2 ((isAutoValued_iff tbl o.1 o.2).2 ⟨e, he, hname, Or.inl hval⟩)
+        · exact absurd hval (hrep e he)
+      · simp only [hsn, Bool.false_eq_true, if_false] at hauto
+        exact hsub o.1 o.2 hauto
+
+
+/-! ### a request with credentials (witness of the sanitization clause) -/
+
+def wSanCfg : SanConfig := ⟨["authorization".toList, "api_key".toList], ["key".toList, "token".toList], "[Filtered]".toList⟩
+def wMarkers : List Str := ["[Filtered]".toList]
+
+def wSecretReq : Req :=
+  ⟨"GET".toList, "http://h/reports?page=1&api_key=s3cr3t&q=a%20b".toList, none, true,
+   [("X-Tenant".toList, "blue team".toList), ("Authorization".toList, "Bearer it's".toList),
+    ("X-Monkey".toList, "banana".toList)], []⟩
+
+/-- what `prepare_request(…, sanitize=True)` hands to `generate` for it -/
+def wSecretShown : Req :=
+  ⟨"GET".toList, "http://h/reports?page=1&api_key=%5BFiltered%5D&q=a%20b".toList, none, true,
+   [("X-Tenant".toList, "blue team".toList), ("Authorization".toList, "[Filtered]".toList),
+    ("X-Monkey".toList, "[Filtered]".toList)], []⟩
+
+/-- the same with a value changed that is not shown as redacted -/
+def wSecretWrong : Req :=
+  ⟨"GET".toList, "http://h/reports?page=1&api_key=%5BFiltered%5D&q=a%20b".toList, none, true,
+   [("X-Tenant".toList, "red team".toList), ("Authorization".toList, "[Filtered]".toList),
+    ("X-Monkey".toList, "[Filtered]".toList)], []⟩
+
 end SV.Proofs.C09
